@@ -26,6 +26,8 @@ type Att struct {
 	Type      string `json:"type"` // Link, Image, Video, Audio, Document
 	Named     bool   `json:"named"`
 	MediaType string `json:"mediaType,omitempty"`
+	// Broken: a member that is well-formed JSON but has nothing to show or open: "" | no-url-no-name | name-not-a-string
+	Broken string `json:"broken,omitempty"`
 }
 
 type Case struct {
@@ -51,12 +53,19 @@ func build(c Case) (pub.Tangible, error) {
 		list := []any{}
 		for _, a := range c.Atts {
 			m := map[string]any{"type": a.Type}
+			switch a.Broken {
+			case "no-url-no-name":
+				list = append(list, m)
+				continue
+			case "name-not-a-string":
+				m["name"] = 7
+			}
 			if a.Type == "Link" {
 				m["href"] = vgen.Target(a.ID)
 			} else {
 				m["url"] = vgen.Target(a.ID)
 			}
-			if a.Named {
+			if a.Named && a.Broken == "" {
 				m["name"] = "some " + vgen.Label(a.ID)
 			}
 			if a.MediaType != "" {
@@ -159,8 +168,22 @@ func check(c Case) vrep.Result {
 	for _, l := range c.Doc.Links {
 		targets[l.ID] = l.Target
 	}
+	broken := 0
 	for _, a := range c.Atts {
+		if a.Broken != "" {
+			broken++
+			continue
+		}
 		targets[a.ID] = vgen.Target(a.ID)
+	}
+	// Open finding "attachment-without-label-leaves-gap": a member with nothing to show is printed as an inline error
+	// without a number but still occupies one, so the numbers shown have a gap. With the finding listed, only the
+	// no-gap clause is waived for such posts; every number that IS shown must still open the link it stands next to.
+	relaxed := broken > 0 && vrep.Excluded("attachment-without-label-leaves-gap")
+	if relaxed {
+		classes = append(classes, "broken-attachment-member(no-gap clause waived)")
+	} else if broken > 0 {
+		classes = append(classes, "broken-attachment-member")
 	}
 	N := len(targets)
 	rendered := item.String(c.Width)
@@ -170,6 +193,15 @@ func check(c Case) vrep.Result {
 	}
 	if len(bound) != N {
 		return vrep.Result{Classes: classes, Err: fmt.Errorf("%d numbers shown for %d links\nrendering:\n%s", len(bound), N, plainOf(rendered))}
+	}
+	if relaxed {
+		for k, id := range bound {
+			link, _, present := item.SelectLink(k)
+			if !present || link != targets[id] {
+				return vrep.Result{Classes: classes, Err: fmt.Errorf("number %d is shown next to %s (target %s) but opens %q (present=%v)\nrendering:\n%s", k, vgen.Label(id), targets[id], link, present, plainOf(rendered))}
+			}
+		}
+		return vrep.Result{Classes: classes, Nontrivial: true, Excluded: ""}
 	}
 	for k := 1; k <= N; k++ {
 		id, ok := bound[k]
@@ -252,6 +284,9 @@ func gen(t *rapid.T) Case {
 				Type:      rapid.SampledFrom([]string{"Link", "Image", "Video", "Audio", "Document"}).Draw(t, "atype"),
 				Named:     rapid.Bool().Draw(t, "named"),
 				MediaType: rapid.SampledFrom([]string{"", "image/png", "video/mp4", "text/html; charset=utf-8"}).Draw(t, "amt")})
+			if rapid.IntRange(0, 7).Draw(t, "brokenatt") == 0 {
+				c.Atts[len(c.Atts)-1].Broken = rapid.SampledFrom([]string{"no-url-no-name", "name-not-a-string"}).Draw(t, "brokenkind")
+			}
 		}
 	}
 	if next >= 10 {
